@@ -72,7 +72,8 @@ def run_checks(ids, tier, all_props, runs=None):
             shutil.rmtree(f"{tmp}/r", ignore_errors=True)
             os.makedirs(f"{tmp}/r")
             shutil.copytree("/repo/src", f"{tmp}/r/src")
-            rc, o = sh(f"git init -q . && git apply {d}/patch.diff", cwd=f"{tmp}/r")
+            pf = f"{d}/patch_rebased.diff" if os.path.exists(f"{d}/patch_rebased.diff") else f"{d}/patch.diff"
+            rc, o = sh(f"git init -q . && git apply {pf}", cwd=f"{tmp}/r")
             if rc != 0:
                 print(sid, "patch does not apply to the current /repo tree:", o[-200:]); continue
             props = ["C06", "C08", "C09", "C12", "C13", "C14", "C19"] if all_props else [meta["property"]]
